@@ -96,7 +96,9 @@ func semverLess(a, b semv) bool {
 }
 
 var c20Versions = []string{"v3.0.0", "v3.0.1", "v3.1.0", "v3.2.0", "v3.2.1", "v3.9.0", "v3.10.0", "v3.10.1", "v4.0.0", "v2.9.9", "v3.2.0-rc.1", "v3.2.0-rc.2", "v3.2.0-rc.10", "v3.2.0-beta", "v3.2.0-alpha.1", "v3.3.0-rc.1", "3.4.0", "v3.2.0+build.5", "v3.11.0", "v4.0.0-rc.1", "v4.1.0", "v2.10.0", "v10.0.0", "v11.2.0", "4.0.0", "v3.0.5"}
-var c20Foreign = []string{"v3", "v4", "v2", "v3.1", "v3.2", "nightly", "latest", "release-candidate", "docs-2024", "v3-old", "mockery-v3"}
+var c20Foreign = []string{"v3", "v4", "v2", "v3.1", "v3.2", "nightly", "latest", "release-candidate", "docs-2024", "v3-old", "mockery-v3",
+	// names under which the tags the tool wants to write become directories (D/F conflict)
+	"v3/legacy", "v4/x", "v3.2.0/hotfix", "archive/v3.0.0"}
 
 func c20Gen(r *core.Rng) c20Case {
 	cs := c20Case{}
@@ -120,7 +122,11 @@ func c20Gen(r *core.Rng) c20Case {
 			if r.Chance(1, 3) {
 				name = core.Pick(r, c20Foreign)
 			}
-			cs.Ops = append(cs.Ops, c20Op{Kind: "tag", Arg: name, Annot: r.Bool(), Back: r.Intn(3)})
+			back := r.Intn(3)
+			if r.Chance(1, 10) {
+				back = 7 + r.Intn(2)
+			}
+			cs.Ops = append(cs.Ops, c20Op{Kind: "tag", Arg: name, Annot: r.Bool(), Back: back})
 		case k < 13:
 			v := core.Pick(r, c20Versions)
 			if r.Chance(1, 12) {
@@ -152,6 +158,11 @@ func (g *c20Repo) git(args ...string) string {
 		g.fail = fmt.Sprintf("git %v: exit %d: %s", args, r.Exit, tail(r.Stderr, 300))
 	}
 	return strings.TrimSpace(r.Stdout)
+}
+
+// try runs git and tolerates failure (a foreign tag that git itself refuses, e.g. a D/F conflict).
+func (g *c20Repo) try(args ...string) {
+	core.RunCmd(g.dir, g.env, 60*time.Second, "git", args...)
 }
 
 type c20State struct {
@@ -276,10 +287,16 @@ func evalC20(c *core.Ctx, cs c20Case, id string) Outcome {
 				target = fmt.Sprintf("HEAD~%d", op.Back)
 			}
 			// a foreign tag may replace an existing one of the same name (somebody else's push)
-			if op.Annot {
-				g.git("tag", "-f", "-a", "-m", op.Arg, op.Arg, target)
-			} else {
-				g.git("tag", "-f", op.Arg, target)
+			switch {
+			case op.Back == 7: // an annotated tag that points at another tag object
+				g.try("tag", "-f", "-a", "-m", "inner", "inner-"+fmt.Sprint(i), "HEAD")
+				g.try("tag", "-f", "-a", "-m", op.Arg, op.Arg, "inner-"+fmt.Sprint(i))
+			case op.Back == 8: // a tag that points at a tree
+				g.try("tag", "-f", op.Arg, "HEAD^{tree}")
+			case op.Annot:
+				g.try("tag", "-f", "-a", "-m", op.Arg, op.Arg, target)
+			default:
+				g.try("tag", "-f", op.Arg, target)
 			}
 		case "branch":
 			g.git("branch", "-f", op.Arg, "HEAD")
